@@ -182,12 +182,12 @@ def dotqmail(rnd):
 def envelope(rnd):
     """qmail-queue envelope: F<sender>\\0 (T<recipient>\\0)* \\0"""
     def a():
-        return rnd.choice([b"a@b.test", b"", b"u", b"x" * rnd.choice([100, 1000, 1001, 1002, 1003, 1004, 5000]) + b"@h", b"#@[]",
-                           b"a\nb@c", b"\xff@\xfe"])
+        return rnd.choice([b"a@b.test", b"a@b.test", b"r@x.test", b"", b"u", b"x" * rnd.choice([100, 996, 997, 998, 999, 1000, 1001, 1002, 1003, 1004, 5000]) + b"@h",
+                           b"#@[]", b"a\nb@c", b"\xff@\xfe"])
     k = rnd.random()
     e = b"F" + a() + b"\0"
     for _ in range(rnd.choice([0, 1, 1, 2, 5, 50])):
-        e += rnd.choice([b"T", b"T", b"T", b"X", b""]) + a() + b"\0"
+        e += rnd.choice([b"T"] * 14 + [b"X", b""]) + a() + b"\0"
     e += b"\0"
     if k < 0.15:
         e = e[:rnd.randint(0, len(e))]
@@ -305,12 +305,17 @@ def dq(n, t):
     return dname(n) + p16(t) + p16(1)
 
 
-def dresp(pkt, declared=None):
-    return p16(len(pkt) if declared is None else declared) + p16(len(pkt)) + pkt
+def dresp(pkt, declared=None, fillpos=None, tail=b""):
+    """one scripted answer: declared length D, content length C, fill position F, content.
+    The harness builds the packet as content[:F] + zero filler (D - C bytes) + content[F:] (content cut to D if longer)."""
+    content = pkt + tail
+    d = len(content) if declared is None else declared
+    f = len(pkt) if fillpos is None else fillpos
+    return p16(d) + p16(len(content)) + p16(f) + content
 
 
 def dfail(soft):
-    return p16(0) + p16(1 if soft else 0)
+    return p16(0) + p16(1 if soft else 0) + p16(0)
 
 
 def dcase(op, host, resps):
@@ -318,40 +323,37 @@ def dcase(op, host, resps):
     return bytes([op, len(host)]) + host + b"".join(resps)
 
 
-def sized_answer(total, qname, qtype, final_type, final_rdata, final_rdlen, nfill=1):
-    """an answer of exactly `total` bytes: question, a TXT filler record, then a final record whose
-    rdlength field says final_rdlen but which carries only final_rdata (the packet ends there)"""
+def sized_answer(total, qname, qtype, final_type, final_rdata, final_rdlen):
+    """an answer of exactly `total` bytes: question, a TXT filler record (its rdata is the harness's filler),
+    then a final record whose rdlength field says final_rdlen but which carries only final_rdata: the packet
+    ends there.  Returned as one scripted answer."""
     h = dhdr(1, 2) + dq(qname, qtype)
     tail = b"\0" + p16(final_type) + p16(1) + b"\0\0\1\0" + p16(final_rdlen) + final_rdata
     fill = total - len(h) - len(tail) - 11
-    if fill < 0:
-        raise ValueError("too small")
-    pkt = h + b"\0" + p16(T_TXT) + p16(1) + b"\0\0\1\0" + p16(fill) + b"x" * fill + tail
-    assert len(pkt) == total
-    return pkt
+    if fill < 0 or fill > 65535:
+        raise ValueError("size")
+    head = h + b"\0" + p16(T_TXT) + p16(1) + b"\0\0\1\0" + p16(fill)
+    return dresp(head, declared=total, tail=tail)
 
 
 def dns_boundary_cases():
-    """response lengths 511/512/513/65535 with the last record cut after 0..rdlength bytes (deterministic set)"""
+    """response lengths 511/512/513/65535 with the last record cut after 0..rdlength bytes (deterministic set).
+    A length >= 513 fills the first (513-byte) buffer, dns.c asks again with the 64 KB buffer: the answer is scripted twice."""
     out = []
     for total in (511, 512, 513, 65535):
+        twice = 2 if total >= 513 else 1
         for remain in range(0, 5):
-            pkt = sized_answer(total, b"host.test", T_A, T_A, b"\x09" * min(remain, 4), 4)
-            resps = [dresp(pkt)]
-            if total >= 513:
-                resps = [dresp(pkt[:513] if False else pkt), dresp(pkt)]     # first call reports `total`, re-query serves it again
-            out.append(("a-%d-remain%d" % (total, remain), dcase(0, b"host.test", resps)))
+            r = sized_answer(total, b"host.test", T_A, T_A, b"\x09" * min(remain, 4), 4)
+            out.append(("a-%d-remain%d" % (total, remain), dcase(0, b"host.test", [r] * twice)))
         for remain in range(0, 4):
-            pkt = sized_answer(total, b"d.test", T_MX, T_MX, (b"\0\x0a" + b"\0")[:remain], 3)
-            resps = [dresp(pkt), dresp(pkt)] if total >= 513 else [dresp(pkt)]
-            out.append(("mx-%d-remain%d" % (total, remain), dcase(1, b"d.test", resps + [dfail(0)])))
+            r = sized_answer(total, b"d.test", T_MX, T_MX, (b"\0\x0a" + b"\0")[:remain], 3)
+            out.append(("mx-%d-remain%d" % (total, remain), dcase(1, b"d.test", [r] * twice + [dfail(0)])))
         for remain in (0, 1, 5):
-            pkt = sized_answer(total, b"4.3.2.1.in-addr.arpa", T_PTR, T_PTR, dname(b"ptr.test")[:remain], 10)
-            resps = [dresp(pkt), dresp(pkt)] if total >= 513 else [dresp(pkt)]
-            out.append(("ptr-%d-remain%d" % (total, remain), dcase(2, b"", resps)))
-        # truncated-bit answer followed by the large one
-        pkt = sized_answer(total, b"host.test", T_A, T_A, b"\x09\x09\x09\x09", 4)
-        out.append(("tc-%d" % total, dcase(0, b"host.test", [dresp(dhdr(1, 0, tc=1) + dq(b"host.test", T_A)), dresp(pkt)])))
+            r = sized_answer(total, b"4.3.2.1.in-addr.arpa", T_PTR, T_PTR, dname(b"ptr.test")[:remain], 10)
+            out.append(("ptr-%d-remain%d" % (total, remain), dcase(2, b"", [r] * twice)))
+        # truncated-bit answer first, then the sized one
+        r = sized_answer(total, b"host.test", T_A, T_A, b"\x09\x09\x09\x09", 4)
+        out.append(("tc-%d" % total, dcase(0, b"host.test", [dresp(dhdr(1, 0, tc=1) + dq(b"host.test", T_A)), r])))
     return out
 
 
